@@ -336,3 +336,8 @@ Definition chk_guard_unit (g : res unit) (ok : bool) (e : exn) : bool :=
 Definition chk_limit_guard (bt : bool) (a : arg) (ok : bool) (e : exn) : bool :=
   match limit_guard bt a with Ok _ => ok | Err e' => negb ok && exn_eqb e e' end.
 Definition chk_parity (a : arg) (expected : res bool) : bool := res_eqb Bool.eqb (parity_guard a) expected.
+
+(* ---- C17 ---- *)
+From Dyce Require Export Model.Rng.
+Definition chk_bits (k : Z) (bs : list Z) (expected : Z) : bool :=
+  (bits_of k bs =? expected) && (Z.of_nat (length bs) =? numbytes k) && (0 <=? expected) && (expected <? 2 ^ k).
